@@ -323,6 +323,7 @@ func GenHistory(seed uint64, p *Profile) *Scenario {
 		case x < p.PClose+p.PProbe+p.PBurst:
 			n := 2 + r.Intn(5)
 			if r.Bool(0.5) {
+				tail := r.Intn(10) // 0: switch, 1: close, 2-3: delete the entity, with updates still pending
 				for i := 0; i < n; i++ {
 					op := "pose"
 					if r.Bool(0.3) {
@@ -330,11 +331,21 @@ func GenHistory(seed uint64, p *Profile) *Scenario {
 					}
 					st := g.makeOp(c, op)
 					st.NoPose = false
-					st.Pipe = i < n-1
+					st.Pipe = i < n-1 || tail < 4
 					if op == "pose" {
 						st.Ent = Ref{K: "own", I: r.Intn(2)}
 					}
 					g.steps = append(g.steps, st)
+				}
+				switch {
+				case tail == 0:
+					g.join(c, g.sessName())
+				case tail == 1:
+					g.steps = append(g.steps, Step{Conn: c, Op: "close"})
+					g.dead[c] = true
+					g.joined[c] = ""
+				case tail < 4:
+					g.steps = append(g.steps, Step{Conn: c, Op: "entity_delete", Ent: Ref{K: "own", I: r.Intn(2)}})
 				}
 			} else {
 				for i := 0; i < n; i++ {
